@@ -183,7 +183,7 @@ impl Check for C07 {
                 let mut deliveries: Vec<Delivery> = vec![];
                 for _ in 0..n {
                     let path = if round == 0 { *[Path::PaidUpload, Path::Replication].choose(&mut cx.rng).expect("nonempty") } else { *[Path::PaidUpload, Path::UnpaidUpdate, Path::UnpaidUpdate, Path::Replication, Path::Replication].choose(&mut cx.rng).expect("nonempty") };
-                    let (mut record, label, pad, txs, ops): (Record, String, Option<(u64, Vec<u8>)>, Vec<Transaction>, Vec<RegisterOp>) = match &kc.fam {
+                    let (record, label, pad, txs, ops): (Record, String, Option<(u64, Vec<u8>)>, Vec<Transaction>, Vec<RegisterOp>) = match &kc.fam {
                         Family::Pad { owner } => {
                             let counter = match cx.rng.gen_range(0..10) {
                                 0..=5 => {
@@ -306,10 +306,43 @@ impl Check for C07 {
                             (rec, format!("reg[{label}]"), None, vec![], good)
                         }
                     };
+                    // a scratchpad and the transactions of one owner share their record key: now and then a valid record of
+                    // the *other* kind of the same owner arrives for the key (never as a paid upload of this family)
+                    let mut path = path;
+                    let (mut record, mut label, mut pad, mut txs, mut ops) = (record, label, pad, txs, ops);
+                    // (only while the node holds a record of this family under the key: on a free key either kind is
+                    // a legitimate first record)
+                    let held_now = sim.get_local(0, &kc.key);
+                    let holds_family = match (&kc.fam, &held_now) {
+                        (Family::Pad { .. }, Some(r)) => try_deserialize_record::<Scratchpad>(r).is_ok(),
+                        (Family::Tx { .. }, Some(r)) => try_deserialize_record::<Vec<Transaction>>(r).map(|v| !v.is_empty()).unwrap_or(false),
+                        _ => false,
+                    };
+                    if round > 0 && holds_family && cx.rng.gen_bool(0.12) {
+                        match &kc.fam {
+                            Family::Pad { owner } if gen::tx_key(&owner.public_key()) == kc.key => {
+                                record = gen::txs_record(kc.key.clone(), &vec![gen::transaction(&mut cx.rng, owner)]);
+                                label = "other-kind:txs".into();
+                                (pad, txs, ops) = (None, vec![], vec![]);
+                                path = *[Path::UnpaidUpdate, Path::Replication].choose(&mut cx.rng).expect("nonempty");
+                                cx.count("deliveries:other-kind-under-the-same-key");
+                            }
+                            Family::Tx { owner } => {
+                                let p = gen::pad(owner, cx.rng.gen_range(1..50), &gen::bytes_r(&mut cx.rng, 1, 40), 0);
+                                if gen::pad_key(&p) == kc.key {
+                                    record = gen::pad_record(&p);
+                                    label = "other-kind:pad".into();
+                                    (pad, txs, ops) = (None, vec![], vec![]);
+                                    path = *[Path::UnpaidUpdate, Path::Replication].choose(&mut cx.rng).expect("nonempty");
+                                    cx.count("deliveries:other-kind-under-the-same-key");
+                                }
+                            }
+                            _ => {}
+                        }
+                    }
                     if pad.is_none() && txs.is_empty() && ops.is_empty() {
                         saw_invalid = true;
                     }
-                    let mut txs = txs;
                     if path == Path::PaidUpload {
                         // a paid transaction upload carries exactly one transaction: the first of the vector
                         if let Family::Tx { .. } = &kc.fam {
@@ -536,6 +569,30 @@ impl Check for C07 {
             }
             if saw_stale && saw_invalid && saw_concurrent {
                 cx.nontrivial(&(fam_label, all_labels.clone()));
+            }
+        }
+        // ---- what the node holds is what it has on disk: after everything has settled the node is restarted over its
+        //      directory and every watched key must read back exactly as before (a version that only lived in the read
+        //      cache would fall back to an older one here)
+        if cx.rng.gen_bool(0.5) {
+            let mut d = || true;
+            sim.set_gates_controlled(false);
+            let settled = sim.settle(&mut d);
+            let keys: Vec<Vec<u8>> = sim.watch.iter().map(|(_, k)| k.clone()).collect();
+            let before: Vec<Option<Vec<u8>>> = keys.iter().map(|k| sim.get_local(0, &libp2p::kad::RecordKey::from(k.clone())).map(|r| r.value)).collect();
+            if settled {
+                sim.bury_background_tasks();
+                let (kp, nroot) = sim.crash_node(0);
+                let idx = sim.add_node(kp, nroot, false);
+                sim.yield_rounds(8);
+                cx.count("restarts-after-the-last-round");
+                for (k, b) in keys.iter().zip(before.iter()) {
+                    cx.eval();
+                    let after = sim.get_local(idx, &libp2p::kad::RecordKey::from(k.clone())).map(|r| r.value);
+                    if after != *b {
+                        cx.violation("stored-version-differs-after-restart", format!("the version served before the restart ({} bytes) is not the one served after it ({})", b.as_ref().map(|v| v.len()).unwrap_or(0), after.as_ref().map(|v| format!("{} bytes", v.len())).unwrap_or_else(|| "nothing".into())), json!({"deliveries": all_labels.iter().take(40).cloned().collect::<Vec<_>>()}));
+                    }
+                }
             }
         }
         if cx.index < 2 {
